@@ -91,7 +91,7 @@ fn check_server(
 }
 
 fn oracle(c: &SCase, st: &mut Stats) -> Result<(), String> {
-  let mut server = Server::new(registration_list(&c.mds)).map_err(|e| e.to_string())?;
+  let mut server = new_server(&c.mds).map_err(|e| e.to_string())?;
   let orig: Vec<Val> = original(server.verif_pprf())?;
   let closure = Prg::for_fresh_key(server.verif_pprf(), &orig);
   let mut punctured: BTreeSet<u8> = BTreeSet::new();
@@ -133,7 +133,7 @@ fn oracle(c: &SCase, st: &mut Stats) -> Result<(), String> {
         // every other importer has already served requests and punctured a tag under its own key
         let mut imp_tags = c.other_mds.clone();
         imp_tags.extend(c.mds.iter().cloned());
-        let mut importer = Server::new(registration_list(&imp_tags)).map_err(|e| e.to_string())?;
+        let mut importer = new_server(&imp_tags).map_err(|e| e.to_string())?;
         if i % 2 == 0 {
           for md in imp_tags.iter().take(10) {
             let _ = importer.eval(&probe, *md, false);
